@@ -750,10 +750,23 @@ let run_gate toks =
     (if a then "1 " else "0 ") ^ Stdlib.String.concat "" (Stdlib.List.map (fun n -> if n.Gate.gn_safe then "1" else "0") l')
   | _ -> failwith "bad gate case"
 
+(* cgen <code>,<a>,<b>,<c> ...  (Model.CacheGen layer A) -> one result per op: - or the number *)
+let run_cgen toks =
+  let ops = Stdlib.List.map (fun t -> match Stdlib.String.split_on_char ',' t with
+      | [c; a; b; d] ->
+        let a = n_of_string a and b = n_of_string b and d = n_of_string d in
+        (match int_of_string c with
+         | 0 -> CacheGen.ANew (a, b, d) | 1 -> CacheGen.ADead a | 2 -> CacheGen.ADrop a
+         | 3 -> CacheGen.AGetFor (a, b) | 4 -> CacheGen.AInsFor (a, b, d) | 5 -> CacheGen.ARemFor (a, b)
+         | 6 -> CacheGen.AEntryValue (a, b) | 7 -> CacheGen.AEntryRemove (a, b)
+         | 8 -> CacheGen.AGet a | 9 -> CacheGen.AIns (a, b) | _ -> CacheGen.ARem a)
+      | _ -> failwith ("bad cgen op " ^ t)) toks in
+  Stdlib.String.concat " " (Stdlib.List.map (fun r -> match r with None -> "-" | Some v -> string_of_n v) (CacheGen.arun CacheGen.ainit ops))
+
 let run_note _ = "note"
 
 let handlers : (string * (string list -> string)) list ref =
-  ref [ ("fs", run_fs); ("open", run_open); ("note", run_note); ("codec", run_codec); ("readdev", run_readdev); ("lww", run_lww); ("monitor", run_monitor); ("cache", run_cache); ("migrate", run_migrate); ("conc", run_conc); ("hist", run_hist); ("pins", run_pins); ("inflight", run_inflight); ("swp", run_swp); ("scn", run_scn); ("abuf", run_abuf); ("fp", run_fp); ("gate", run_gate) ]
+  ref [ ("fs", run_fs); ("open", run_open); ("note", run_note); ("codec", run_codec); ("readdev", run_readdev); ("lww", run_lww); ("monitor", run_monitor); ("cache", run_cache); ("migrate", run_migrate); ("conc", run_conc); ("hist", run_hist); ("pins", run_pins); ("inflight", run_inflight); ("swp", run_swp); ("scn", run_scn); ("abuf", run_abuf); ("fp", run_fp); ("gate", run_gate); ("cgen", run_cgen) ]
 
 
 let () =
